@@ -35,6 +35,7 @@ class C09:
         self.impls = [c for c in self.storage.all_subclasses()]
         self.execf = p.func("SqliteStorage.__db_execute")
         self.stmts = []   # (func, call node, Stmt, params expr or None)
+        self.other_sql = []
 
     # ---------------------------------------------------------------- statement extraction
     def extract(self):
@@ -68,7 +69,12 @@ class C09:
                     if kw.arg == "parameters":
                         params = kw.value
                 for tx in texts:
-                    self.stmts.append((f, call, sql.parse(tx), params))
+                    try:
+                        self.stmts.append((f, call, sql.parse(tx), params))
+                    except sql.SqlUndecided:
+                        if "cloud" in tx.lower().replace(",", " ").replace("(", " ").split():
+                            raise
+                        self.other_sql.append((f, call, tx))
         if len(self.stmts) < 9:
             raise AnalysisError("only %d SQL statements reach SqliteStorage.__db_execute, expected >= 9" % len(self.stmts))
         schema = [st for (_, _, st, _) in self.stmts if st.kind == "create_table"]
@@ -317,6 +323,33 @@ class C09:
                                   "raw self.db.%s outside the mutex-protected __db_execute" % n.func.attr, func=f.qname)
         if nsites == 0:
             raise AnalysisError("no self.db.execute call found in SqliteStorage")
+        # result rows are drained while the mutex is still held (the connection and its statement cache are shared)
+        nfetch = 0
+        for c in [self.sqlite] + self.sqlite.all_subclasses():
+            for f in c.methods.values():
+                live_cursors = set()
+                for n in ctx.own_nodes(f):
+                    if isinstance(n, ast.Assign) and isinstance(n.value, ast.Call) and isinstance(n.targets[0], ast.Name):
+                        s_ = ctx.site_of(f, n.value, "call")
+                        if s_ is not None and self.execf in s_.under:
+                            fk = [k for k in n.value.keywords if k.arg == "fetch"]
+                            if not (fk and isinstance(fk[0].value, ast.Constant) and fk[0].value.value is True):
+                                live_cursors.add(n.targets[0].id)
+                for n in ctx.own_nodes(f):
+                    bad = None
+                    if isinstance(n, ast.Call) and isinstance(n.func, ast.Attribute) and n.func.attr in ("fetchall", "fetchone", "fetchmany"):
+                        nfetch += 1
+                        if not self._inside_mutex(f, n):
+                            bad = "`%s` drains a cursor after the mutex was released" % ast.unparse(n)
+                        else:
+                            rep.ok("C09.R6", stmt_key(f, n), ctx.line(f, n), "rows fetched under `with self._mutex`", func=f.qname)
+                    elif isinstance(n, (ast.For, ast.comprehension)) and isinstance(n.iter, ast.Name) and n.iter.id in live_cursors and not self._inside_mutex(f, n):
+                        bad = "iteration over live cursor `%s` after the mutex was released" % n.iter.id
+                    if bad:
+                        rep.violation("C09.R6", stmt_key(f, n if not isinstance(n, ast.comprehension) else n.iter), ctx.line(f, n if hasattr(n, "lineno") else n.iter),
+                                      bad + ": a concurrent execute of the same SQL resets the shared statement (rows vanish / short rows)", func=f.qname)
+        if nfetch == 0:
+            raise AnalysisError("no fetch call found in SqliteStorage (row-draining rule has nothing to check)")
 
     def _inside_mutex(self, f, node) -> bool:
         for w in self.ctx.own_nodes(f):
